@@ -467,6 +467,16 @@ def c_tcoords(case, ctx):
     ctx.expect(close(i2t.apply(t2i.apply(p)), p, atol=1e-9), "tcoords.inverse.t2i_then_i2t", lambda: describe(i2t.apply(t2i.apply(p)), p))
     pi = p * np.array([h - 1, w - 1])
     ctx.expect(close(t2i.apply(i2t.apply(pi)), pi, atol=1e-8 * max(h, w)), "tcoords.inverse.i2t_then_t2i", lambda: describe(t2i.apply(i2t.apply(pi)), pi))
+    # the factories hand out a transform that is the caller's to use: editing it in place must not change what the
+    # next call for the same image shape returns
+    t2i.compose_before_inplace(Homogeneous(np.array([[1.0, 0.0, -30.0], [0.0, 1.0, -40.0], [0.0, 0.0, 1.0]])))
+    i2t.compose_after_inplace(Homogeneous(np.array([[2.0, 0.0, 0.0], [0.0, 2.0, 0.0], [0.0, 0.0, 1.0]])))
+    t2i = tcoords_to_image_coords((h, w))
+    i2t = image_coords_to_tcoords((h, w))
+    got2 = t2i.apply(corners)
+    ctx.expect(close(got2, want, atol=1e-9), "tcoords.corners_after_caller_edited_an_earlier_result", lambda: describe(got2, want))
+    back2 = i2t.apply(want)
+    ctx.expect(close(back2, corners, atol=1e-9), "tcoords.corners_back_after_caller_edited_an_earlier_result", lambda: describe(back2, corners))
     # explicit formula: (s, t) -> ((1 - t)(h-1), s (w-1))
     wantp = np.stack([(1 - p[:, 1]) * (h - 1), p[:, 0] * (w - 1)], axis=1)
     ctx.expect(close(t2i.apply(p), wantp, atol=1e-9 * max(h, w)), "tcoords.formula", lambda: describe(t2i.apply(p), wantp))
